@@ -20,15 +20,25 @@ func PlanCases(prop, tier string, seed int64) (cases []*Case, rule []string) {
 		}
 		rule = append(rule, fmt.Sprintf("%d x %s", k, what))
 	}
+	for _, c := range CorpusCases(prop) {
+		c.Seed = seed
+		cases = append(cases, c)
+	}
+	if len(cases) > 0 {
+		rule = append(rule, fmt.Sprintf("%d corpus cases (minimal reproductions of the defects found so far) run first", len(cases)))
+	}
 	switch prop {
 	case "C01":
 		add(n(160, 2000), "build a random batch in a random chunk mode and dump every API answer", func() *Case { return g.BuildObs(false) })
 		add(n(2, 24), "the same with 1030-1330 documents (adaptive multi-chunk postings)", func() *Case { return g.BuildObs(true) })
+		add(n(25, 300), "postings looked up through reused lists and iterators (nothing the batch does not imply, also for absent terms)", func() *Case { return g.IterCase(8) })
 	case "C02":
 		add(n(140, 2000), "build 1-4 batches, merge them (also merges of merges) with random deletions and dump the result", func() *Case { return g.MergeObs() })
+		add(n(12, 150), "segments with identical field lists merged without deletions (stored-field byte-copy path across 128-document blocks)", func() *Case { return g.CopyPathMerge() })
+		add(n(2, 20), "a 1030-1230 document segment (several doc-value chunks) merged with deletions", func() *Case { return g.BigMerge() })
 	case "C03":
 		add(n(140, 2000), "merge with random deletion sets (nil, empty, sparse, dense, everything) and report DocumentNumbers", func() *Case { return g.MergeObs() })
-		add(n(1, 4), "all deletion sets over 2-3 tiny segments (exhaustive)", func() *Case { return g.MergeObs() })
+		add(n(12, 150), "segments with identical field lists merged without deletions (byte-copy path across 128-document blocks): content at the reported numbers", func() *Case { return g.CopyPathMerge() })
 	case "C04":
 		add(n(110, 1500), "build or merge, dump, reload from memory and from a file, re-persist the loaded segment, dump each", func() *Case { return g.PersistLoad() })
 	case "C05":
@@ -36,13 +46,17 @@ func PlanCases(prop, tier string, seed int64) (cases []*Case, rule []string) {
 	case "C13":
 		add(n(150, 2500), "histories of 14 lookups reusing postings lists and iterators across terms, encodings and flags", func() *Case { return g.IterCase(14) })
 		add(n(40, 600), "doc-value readers reused across visit sequences", func() *Case { return g.DVCase(false) })
+		add(n(2, 30), "one doc-value reader reused across 1024-document chunks (1030-2230 documents)", func() *Case { return g.DVCase(true) })
+		add(n(1, 20), "one reader hopping through an empty chunk", func() *Case { return g.DVHop() })
 		add(n(40, 600), "dictionary enumeration on reused dictionaries", func() *Case { return g.DictCase() })
 	case "C06":
 		add(n(130, 2000), "stored-field visits in random order with early stop and out-of-range numbers", func() *Case { return g.StoredCase(false) })
 		add(n(12, 200), "the same on 120-420 documents (several 128-document blocks, short records)", func() *Case { return g.StoredCase(true) })
+		add(n(12, 150), "merges through the stored-field byte-copy path whose output blocks end inside a source block", func() *Case { return g.CopyPathMerge() })
 	case "C07":
 		add(n(120, 1800), "doc-value readers over field subsets, forward/backward/random visits", func() *Case { return g.DVCase(false) })
 		add(n(3, 40), "the same on 1030-2230 documents (several 1024-document chunks)", func() *Case { return g.DVCase(true) })
+		add(n(2, 30), "2100-3000 documents with a whole 1024-document chunk empty in one field; one reader hops chunk A, the empty chunk, chunk A", func() *Case { return g.DVHop() })
 	case "C08":
 		add(n(150, 2500), "dictionary enumeration with key ranges and prefix automata, Contains", func() *Case { return g.DictCase() })
 	case "C16":
@@ -93,15 +107,15 @@ func NontrivialTags(prop string) map[string]bool {
 	case "C02":
 		set("multi_chunk", "merge_of_merge", "drops_and_survivors")
 	case "C03":
-		set("drops_and_survivors", "zero_survivors")
+		set("drops_and_survivors", "zero_survivors", "copy_path")
 	case "C04":
 		set("merge", "empty_batch", "zero_survivors", "multi_chunk")
 	case "C05":
-		set("exclusion", "multi_chunk", "replace_actual")
+		set("exclusion", "multi_chunk", "replace_actual", "clean_path")
 	case "C13":
 		set("reuse_pl", "reuse_it", "reader_reuse")
 	case "C06":
-		set("block_edge", "early_stop", "multi_block")
+		set("block_edge", "early_stop", "multi_block", "copy_path")
 	case "C07":
 		set("dv_chunk_reentry", "reader_reuse")
 	case "C08":
